@@ -48,6 +48,31 @@ def run_backend(kind):
     return None
 
 
+def context_leak():
+    """The context must not influence cache keys or stored entries (even when a result contains task objects)."""
+    import glob
+    import labtech
+    import replay.universe as U
+    logging.getLogger('labtech').setLevel(logging.CRITICAL)
+    blobs = []
+    for marker in ('CTX-MARKER-AAAA', 'CTX-MARKER-BBBB'):
+        with tempfile.TemporaryDirectory() as d:
+            lab = labtech.Lab(storage=d, runner_backend='serial', context={'shared': marker, 's': marker})
+            t = U.Selfie('s')
+            lab.run_tasks([t], disable_progress=True, disable_top=True)
+            files = sorted(glob.glob(os.path.join(d, '*', '*')))
+            data = {os.path.relpath(f, d): open(f, 'rb').read() for f in files if not f.endswith('metadata.json')}
+            for f, b in data.items():
+                if marker.encode() in b:
+                    return f'the Lab context leaked into the stored entry {f} (a value of the context is inside the pickled result)'
+            blobs.append((sorted(data), [data[k] for k in sorted(data)]))
+    if blobs[0][0] != blobs[1][0]:
+        return 'cache keys differ between two Labs that differ only in their context'
+    if blobs[0][1] != blobs[1][1]:
+        return 'stored entries differ between two Labs that differ only in their context'
+    return None
+
+
 def main():
     ap = argparse.ArgumentParser()
     ap.add_argument('--obligation', default='')
@@ -62,6 +87,10 @@ def main():
             if why:
                 res = dict(reproduced=True, level='api', backend=kind, summary=why)
                 break
+        if not res.get('reproduced'):
+            why = context_leak()
+            if why:
+                res = dict(reproduced=True, level='api', summary=why)
     except Exception:
         res = dict(reproduced=False, error=traceback.format_exc()[-1500:])
     if not a.obligation:
